@@ -230,9 +230,16 @@ func (g *DocGen) val(t *Ty, depth int) string {
 		if t.E.K == 'r' {
 			n = g.r.Intn(5)
 		}
+		if depth <= 1 && g.r.P(1, 12) {
+			n = 13 + g.r.Intn(20) // long arrays with many tied keys
+		}
 		return g.arr(n, func(int) string { return g.val(t.E, depth+1) })
 	case 'o':
-		return g.obj(g.keys(5), func(string) string { return g.val(t.E, depth+1) })
+		mx := 5
+		if g.r.P(1, 8) {
+			mx = len(mapKeys) // objects with 8 or more members
+		}
+		return g.obj(g.keys(mx), func(string) string { return g.val(t.E, depth+1) })
 	case 'p':
 		return g.obj([]string{"x", "y"}, func(string) string { return g.num() })
 	case 'r':
@@ -291,6 +298,16 @@ func (g *DocGen) val(t *Ty, depth int) string {
 // GenDoc returns the typed encoding of a fresh root document.
 func GenDoc(r *Rng, tag string, poison, spare int) string {
 	g := &DocGen{r: r, tag: tag, poison: poison, spare: spare}
+	switch r.Intn(40) {
+	case 0:
+		return "null"
+	case 1:
+		return g.val(tA(tRec), 1)
+	case 2:
+		return g.str()
+	case 3:
+		return g.val(tO(tN), 1)
+	}
 	// refs must follow defs in encoding order; obj() keeps generation order
 	return g.val(tDoc, 0)
 }
@@ -507,6 +524,10 @@ func (g *ExprGen) failing(cur *Ty, depth int) *Expr {
 	case 0:
 		return fn("abs", g.gen(tS, cur, depth+1))
 	case 1:
+		if g.r.P(1, 2) {
+			// a name that some let elsewhere in the expression binds: out of scope here
+			return &Expr{K: KVar, S: pick(g.r, []string{"v0", "v1", "v2", "v3", "v4", "w0", "w1", "w2"})}
+		}
 		return &Expr{K: KVar, S: "undefined_" + strconv.Itoa(g.r.Intn(3))}
 	case 2:
 		return mkS(KBin, "/", g.gen(tN, cur, depth+1), lit("0"))
@@ -682,8 +703,16 @@ func (g *ExprGen) gen(want, cur *Ty, depth int) *Expr {
 			return mkS(KBin, pick(g.r, []string{"<", "<=", ">", ">=", "==", "!="}), g.gen(tN, cur, d), g.gen(tN, cur, d))
 		case 2:
 			t := g.anyTy()
+			if g.r.P(1, 2) {
+				// the same value on both sides (possibly a large object)
+				e := g.gen(pick(g.r, []*Ty{tDoc, tO(tN), tO(tRec), tRec, t}), cur, d)
+				return mkS(KBin, pick(g.r, []string{"==", "!="}), e, e.clone())
+			}
 			return mkS(KBin, pick(g.r, []string{"==", "!="}), g.gen(t, cur, d), g.gen(t, cur, d))
 		case 3:
+			if g.r.P(1, 4) {
+				return fn("contains", g.gen(tA(tRec), cur, d), g.gen(tRec, cur, d))
+			}
 			return fn("contains", g.gen(tA(tN), cur, d), g.gen(tN, cur, d))
 		case 4:
 			return mk(KNot, g.gen(tAny, cur, d))
@@ -772,14 +801,25 @@ func (g *ExprGen) genArr(want, cur *Ty, d int) *Expr {
 		}
 		return e
 	}
+	window := func(e *Expr) *Expr {
+		if !g.r.P(1, 3) {
+			return e
+		}
+		// a step-less slice is a window onto the caller's array
+		w := &Expr{K: KSlice, C: []*Expr{e}, N: []int{g.r.Intn(3), 2 + g.r.Intn(5), 1}, F: []bool{g.r.P(2, 3), g.r.P(1, 2), false}}
+		if !w.F[0] && !w.F[1] {
+			w.F[0] = true
+		}
+		return w
+	}
 	switch g.r.Intn(18) {
 	case 0:
 		if el.K == 'n' || el.K == 's' {
-			return fn("sort", g.gen(want, cur, d))
+			return fn("sort", window(g.gen(want, cur, d)))
 		}
-		return fn("sort_by", g.gen(want, cur, d), g.keyRef(el))
+		return fn("sort_by", window(g.gen(want, cur, d)), g.keyRef(el))
 	case 1:
-		return fn("reverse", g.gen(want, cur, d))
+		return fn("reverse", window(g.gen(want, cur, d)))
 	case 2:
 		s := &Expr{K: KSlice, C: []*Expr{g.gen(want, cur, d)}}
 		s.N = []int{g.r.Intn(4) - 1, g.r.Intn(6) - 1, pick(g.r, []int{1, 2, -1, 3, -2})}
